@@ -248,6 +248,8 @@ func main() {
 		runCase(s, lens, readerModes[rnd.Intn(len(readerModes))])
 	}
 	duplex(r, rnd)
+	queued(r, rnd)
+	r.Floor("queued_messages", int(r.Counter("queued_messages")), 1000)
 	r.Floor("messages_roundtripped", int(r.Counter("messages_roundtripped")), 1000)
 	r.Floor("duplex_messages", int(r.Counter("duplex_messages")), 10000)
 	r.Finish()
@@ -332,5 +334,100 @@ func duplex(r *vf.Run, rnd *rand.Rand) {
 		r.Evals(2 * per)
 		r.Count("duplex_messages", 2*per)
 		r.Nontrivial(fmt.Sprintf("duplex/%d", round))
+	}
+}
+
+// queued: the caller owns what it gets and what it gives.  A sender may seal several messages before it
+// transmits any of them (a response and the notifications behind it), a receiver may open several before it
+// consumes the plaintexts, and both reuse their own buffers as soon as a call has returned.  Every result
+// drained LATER must still be the reference framing / the payload of its own message.
+func queued(r *vf.Run, rnd *rand.Rand) {
+	rounds := r.Pick(300, 6000)
+	for round := 0; round < rounds; round++ {
+		var secret [32]byte
+		rnd.Read(secret[:])
+		acc, err1 := crypto.NewSecureSessionFromSharedKey(secret)
+		ctl, err2 := crypto.NewSecureClientSessionFromSharedKey(secret)
+		if err1 != nil || err2 != nil {
+			r.Inconclusive("session constructors failed")
+			return
+		}
+		_, a2c := refctl.SessionKeys(secret[:])
+		ref := &refctl.Framer{Key: a2c}
+		k := 2 + rnd.Intn(5)
+		var lens []int
+		var plains, wants [][]byte
+		var encs []io.Reader
+		scratch := make([]byte, 5000) // the sender's one buffer
+		for i := 0; i < k; i++ {
+			n := []int{0, 1, 7, 200, 300, 1023, 1024, 1025, 1500, 2048, 3000}[rnd.Intn(11)]
+			if rnd.Intn(3) == 0 {
+				n = rnd.Intn(5000)
+			}
+			lens = append(lens, n)
+			rnd.Read(scratch[:n])
+			p := append([]byte{}, scratch[:n]...)
+			plains = append(plains, p)
+			wants = append(wants, ref.SealFrames(p, nil))
+			e, err := acc.Encrypt(bytes.NewReader(scratch[:n]))
+			if err != nil {
+				r.Violation("queued:encrypt-error", fmt.Sprintf("Encrypt returned %v", err), map[string]interface{}{"lengths": lens})
+				return
+			}
+			encs = append(encs, e)
+		}
+		for i := range scratch {
+			scratch[i] = 0xEE
+		}
+		w := map[string]interface{}{"secret": vf.Hex(secret[:]), "payload_lengths": lens}
+		// transmit in order, after all of them have been sealed
+		var wires [][]byte
+		bad := false
+		for i, e := range encs {
+			wire, _ := ioutil.ReadAll(e)
+			wires = append(wires, wire)
+			if !bytes.Equal(wire, wants[i]) {
+				w["message"] = i
+				r.Violation("queued:sealed-message-changed-before-it-was-read",
+					fmt.Sprintf("%d messages were sealed and then read out in order: what Encrypt returned for message %d (%d payload bytes) is not the reference framing of that message any more", k, i, lens[i]), w)
+				bad = true
+				break
+			}
+		}
+		if bad {
+			continue
+		}
+		// the receiver opens all of them (reusing its receive buffer) and consumes the plaintexts afterwards
+		var decs []io.Reader
+		rbuf := make([]byte, 0, 6000)
+		for i, wire := range wires {
+			rbuf = append(rbuf[:0], wire...)
+			d, err := ctl.Decrypt(bytes.NewReader(rbuf))
+			if err != nil {
+				w["message"] = i
+				r.Violation("queued:decrypt-rejects-well-formed-message", fmt.Sprintf("message %d of %d is rejected: %v", i, k, err), w)
+				bad = true
+				break
+			}
+			decs = append(decs, d)
+		}
+		if bad {
+			continue
+		}
+		for i := range rbuf[:cap(rbuf)] {
+			rbuf[:cap(rbuf)][i] = 0xDD
+		}
+		for i, d := range decs {
+			got, _ := ioutil.ReadAll(d)
+			if !bytes.Equal(got, plains[i]) {
+				w["message"] = i
+				r.Violation("queued:opened-message-changed-before-it-was-read",
+					fmt.Sprintf("%d messages were opened and their plaintexts read afterwards: what Decrypt returned for message %d (%d payload bytes) is not its payload any more", k, i, lens[i]), w)
+				break
+			}
+		}
+		r.Evals(k)
+		r.Count("queued_messages", k)
+		r.Nontrivial(fmt.Sprintf("queued/%v", lens))
 	}
 }
